@@ -113,7 +113,10 @@ Fixpoint build (t : rtree) : option snode :=
 
 (* ---- results ---------------------------------------------------------------------- *)
 Inductive res :=
-| RVal (h : hid)       (* the resource loaded by handle h *)
+| RVal (h : hid)       (* what h() returns now: the access went through the handle's
+                          __call__ (for a Handle subclass that overrides __call__ the
+                          harness checks that it is the result of the one call made by
+                          this access; for a plain handle, the cached resource) *)
 | RHandle (h : hid)    (* the handle object h *)
 | RSub                 (* a nested container (sub-map / sub-snapshot) *)
 | RAbsent              (* KeyError on the map, AttributeError on the snapshot *)
